@@ -9,11 +9,19 @@ Open Scope N_scope.
 
 Definition bytes := list N.
 
-(* data.Value, projected: ints are Go int (64-bit), floats are carried by their bit pattern, an
+Fixpoint bytes_eqb (a b : bytes) : bool :=
+  match a, b with
+  | [], [] => true
+  | x :: a', y :: b' => (x =? y) && bytes_eqb a' b'
+  | _, _ => false
+  end.
+
+(* data.Value, projected: ints are Go int (64-bit), a float is carried by its text (the shortest
+   decimal text strconv prints for it, or INF / -INF / NAN; strconv's float <-> text is assumed), an
    ArrayValue is its value list (ToValueList: element names are ignored by serialize), an
    ObjectValue is its ordered property list *)
 Inductive value :=
-| VNull | VBool (b : bool) | VInt (z : Z) | VFloat (bits : N) | VStr (s : bytes)
+| VNull | VBool (b : bool) | VInt (z : Z) | VFloat (txt : bytes) | VStr (s : bytes)
 | VList (l : list value)
 | VMap (l : list (bytes * value)).
 
@@ -55,7 +63,7 @@ Fixpoint ser (v : value) : option bytes :=
   | VBool false => Some [98; 58; 48; 59]
   | VInt z => Some ([105; 58] ++ dec_Z z ++ [59])
   | VStr s => Some (str_lit s)
-  | VFloat _ => None                                    (* default: return "", false *)
+  | VFloat t => Some ([100; 58] ++ t ++ [59])           (* "d:" + phpFloatText(f) + ";" *)
   | VList l =>
       let items := (fix go (i : N) (l : list value) : list (option bytes) :=
                       match l with
@@ -88,12 +96,6 @@ Inductive pres (A : Type) := POk (a : A) | PFail | POutOfFuel | PUnmodelled.
 Arguments POk {A} a. Arguments PFail {A}. Arguments POutOfFuel {A}. Arguments PUnmodelled {A}.
 
 (* ObjectValue.SetProperty on an ordered map: an existing key keeps its position *)
-Fixpoint bytes_eqb (a b : bytes) : bool :=
-  match a, b with
-  | [], [] => true
-  | x :: a', y :: b' => (x =? y) && bytes_eqb a' b'
-  | _, _ => false
-  end.
 Fixpoint map_set (m : list (bytes * value)) (k : bytes) (v : value) : list (bytes * value) :=
   match m with
   | [] => [(k, v)]
@@ -134,6 +136,36 @@ Definition int_of_text (neg : bool) (ds : bytes) : option Z :=   (* strconv.Pars
   if neg then (if m <=? max_int + 1 then Some (- Z.of_N m)%Z else None)
   else (if m <=? max_int then Some (Z.of_N m) else None).
 
+(* strings.IndexByte(s, ';'): the text before the first ';' and what follows it *)
+Fixpoint split_semi (s : bytes) : option (bytes * bytes) :=
+  match s with
+  | [] => None
+  | c :: r => if c =? 59 then Some ([], r)
+              else match split_semi r with Some (a, b) => Some (c :: a, b) | None => None end
+  end.
+
+(* isFloatText: [+-]? ( digits [ "." digits* ] | "." digits ) ( [eE] [+-]? digits )? *)
+Definition skip_sign (s : bytes) : bytes :=
+  match s with c :: t => if (c =? 43) || (c =? 45) then t else s | [] => s end.
+Definition is_nil {A} (l : list A) : bool := match l with [] => true | _ => false end.
+Definition exp_ok (r : bytes) : bool :=
+  match r with
+  | [] => true
+  | c :: r' => if (c =? 101) || (c =? 69)
+               then let (d3, r5) := span_digits (skip_sign r') in negb (is_nil d3) && is_nil r5
+               else false
+  end.
+Definition is_float_text (s : bytes) : bool :=
+  let (d1, r1) := span_digits (skip_sign s) in
+  match r1 with
+  | c :: r2 => if c =? 46 then let (d2, r3) := span_digits r2 in
+                               negb (is_nil d1 && is_nil d2) && exp_ok r3
+               else negb (is_nil d1) && exp_ok r1
+  | [] => negb (is_nil d1)
+  end.
+Definition float_text_ok (t : bytes) : bool :=
+  bytes_eqb t [73; 78; 70] || bytes_eqb t [45; 73; 78; 70] || bytes_eqb t [78; 65; 78] || is_float_text t.
+
 (* `s[i] == c` on the not-yet-consumed suffix *)
 Definition expect (c : N) (s : bytes) : option bytes :=
   match s with x :: r => if x =? c then Some r else None | [] => None end.
@@ -146,7 +178,7 @@ Definition take_sign (s : bytes) : bool * bytes :=
   end.
 
 (* parsePhpValue / parsePhpArray over the not-yet-consumed suffix (the code's s[*idx:]).
-   [parse_pairs] is the `for i := 0; i < n; i++` loop.  Characters: N 78, b 98, i 105, s 115,
+   [parse_pairs] is the `for i := 0; i < n; i++` loop.  Characters: N 78, b 98, i 105, d 100, s 115,
    a 97, colon 58, semicolon 59, double quote 34, { 123, } 125, digits 48... *)
 Fixpoint parse_value (fuel : nat) (s : bytes) {struct fuel} : pres (value * bytes) :=
   match fuel with O => POutOfFuel | S f =>
@@ -173,6 +205,12 @@ Fixpoint parse_value (fuel : nat) (s : bytes) {struct fuel} : pres (value * byte
                              | Some z => POk (VInt z, r4)
                              | None => PFail end
         | _, _ => PFail end
+      | None => PFail end
+    else if c =? 100 then                                         (* d:text; *)
+      match expect 58 r with
+      | Some r1 => match split_semi r1 with
+                   | Some (txt, r2) => if float_text_ok txt then POk (VFloat txt, r2) else PFail
+                   | None => PFail end
       | None => PFail end
     else if c =? 115 then                                         (* s:len:"bytes"; *)
       match expect 58 r with
@@ -245,57 +283,6 @@ Definition parse_strict (s : bytes) : pres value :=
   | PFail => PFail | POutOfFuel => POutOfFuel | PUnmodelled => PUnmodelled
   end.
 
-(* strings.TrimSpace: ASCII \t \n \v \f \r and space, and the Unicode White_Space code points
-   written in UTF-8: U+0085, U+00A0, U+1680, U+2000..U+200A, U+2028, U+2029, U+202F, U+205F, U+3000 *)
-Definition ascii_space (c : N) : bool := ((9 <=? c) && (c <=? 13)) || (c =? 32).
-Definition sp_e280 (c : N) : bool :=       (* third byte of U+2000..200A, 2028, 2029, 202F *)
-  ((128 <=? c) && (c <=? 138)) || (c =? 168) || (c =? 169) || (c =? 175).
-Definition strip_space_prefix (s : bytes) : option bytes :=
-  match s with
-  | [] => None
-  | c :: r =>
-    if ascii_space c then Some r
-    else if c =? 194 then
-      match r with c1 :: r' => if (c1 =? 133) || (c1 =? 160) then Some r' else None | _ => None end
-    else if c =? 225 then
-      match r with c1 :: c2 :: r' => if (c1 =? 154) && (c2 =? 128) then Some r' else None | _ => None end
-    else if c =? 226 then
-      match r with
-      | c1 :: c2 :: r' => if (c1 =? 128) && sp_e280 c2 then Some r'
-                          else if (c1 =? 129) && (c2 =? 159) then Some r' else None
-      | _ => None end
-    else if c =? 227 then
-      match r with c1 :: c2 :: r' => if (c1 =? 128) && (c2 =? 128) then Some r' else None | _ => None end
-    else None
-  end.
-Fixpoint trim_left (fuel : nat) (s : bytes) : bytes :=
-  match fuel with O => s | S f =>
-  match strip_space_prefix s with Some r => trim_left f r | None => s end end.
-(* the same set read backwards (utf8.DecodeLastRune) on the reversed string *)
-Definition strip_space_suffix_rev (s : bytes) : option bytes :=
-  match s with
-  | [] => None
-  | c :: r =>                                  (* c = last byte of the string *)
-    if ascii_space c then Some r
-    else match r with
-         | p1 :: r1 =>
-           if ((c =? 133) || (c =? 160)) && (p1 =? 194) then Some r1
-           else match r1 with
-                | p2 :: r2 =>
-                  if (c =? 128) && (p1 =? 154) && (p2 =? 225) then Some r2
-                  else if sp_e280 c && (p1 =? 128) && (p2 =? 226) then Some r2
-                  else if (c =? 159) && (p1 =? 129) && (p2 =? 226) then Some r2
-                  else if (c =? 128) && (p1 =? 128) && (p2 =? 227) then Some r2
-                  else None
-                | [] => None end
-         | [] => None end
-  end.
-Fixpoint trim_right_rev (fuel : nat) (s : bytes) : bytes :=
-  match fuel with O => s | S f =>
-  match strip_space_suffix_rev s with Some r => trim_right_rev f r | None => s end end.
-Definition trim_space (s : bytes) : bytes :=
-  let l := trim_left (length s) s in rev (trim_right_rev (length l) (rev l)).
-
 Fixpoint index_byte (c : N) (s : bytes) : option nat :=
   match s with [] => None | x :: r => if x =? c then Some O else option_map S (index_byte c r) end.
 Definition has_prefix (p s : bytes) : bool := bytes_eqb p (firstn (length p) s).
@@ -304,14 +291,13 @@ Definition origami_a : bytes := [95;95;111;114;105;103;97;109;105;95;97;58].   (
 Definition origami_o : bytes := [95;95;111;114;105;103;97;109;105;95;111;58].  (* "__origami_o:" *)
 
 (* UnserializeFunction.Call: value, or false (PFail) *)
-Definition unserialize (raw0 : bytes) : pres value :=
-  let raw := trim_space raw0 in
+Definition unserialize (raw : bytes) : pres value :=
   match raw with
   | [] => PFail
   | _ =>
     let strict :=
       if has_prefix [78; 59] raw || has_prefix [98; 58] raw || has_prefix [105; 58] raw
-         || has_prefix [115; 58] raw || has_prefix [97; 58] raw
+         || has_prefix [100; 58] raw || has_prefix [115; 58] raw || has_prefix [97; 58] raw
       then parse_strict raw else PFail in
     match strict with
     | POk v => POk v
